@@ -110,6 +110,165 @@ def u1(chk):
     chk.use_engine(e)
 
 
+def array_literal_threading(chk, e, mk_ty=None, expected_checks=None, tag=""):
+    """NewArrayChecker.check (shared with C16: a later element must be checked — and coerced — against
+    the element type the earlier ones fixed)"""
+    EC = "guppylang_internals.checker.expr_checker"
+    if mk_ty is None:
+        def mk_ty(name, log):
+            def substitute(sub):
+                snap = dict(sub)
+                log.append(("substitute", name, snap))
+                return ("SUBSTITUTED", name, tuple(sorted(snap.items())))
+            return SObj(ClassVal("Ty", builtin=True), {"name": name, "substitute": Builtin("substitute", substitute), "unsolved_vars": set()})
+
+        def expected_checks(n, names, init):
+            out, acc = [], dict(init)
+            for i in range(n):
+                out.append((f"el{i}", ("SUBSTITUTED", names[i], tuple(sorted(acc.items())))))
+                acc[f"v{i}"] = f"sol{i}"
+            return out, acc
+    # ---- array(e0, e1, ..) checked against array[T, n]: the same threading through the elements
+    CKM = "guppylang_internals.std._internal.checker"
+    e.func_info(CKM, "NewArrayChecker.check")
+    e.models["guppylang_internals.tys.builtin:is_array_type"] = lambda it, a, k: True
+    e.models[f"{TY}:unify"] = lambda it, a, k: {}
+    e.models["guppylang_internals.tys.builtin:nat_type"] = lambda it, a, k: "nat"
+    for n in range(1, 4):
+        def t3(it, n=n):
+            NAC = it.lookup_global(e.module(CKM), "NewArrayChecker")
+            TA = it.lookup_global(e.module("guppylang_internals.tys.arg"), "TypeArg")
+            CA = it.lookup_global(e.module("guppylang_internals.tys.arg"), "ConstArg")
+            log, checks = [], []
+            elem = mk_ty("elem", log)
+
+            def check(self_, el, ty, *a):
+                checks.append((el, ty))
+                return (("CHECKED", el), {f"v{len(checks) - 1}": f"sol{len(checks) - 1}"})
+            e.models[f"{EC}:ExprChecker.check"] = lambda it2, a, k: check(*a)
+            e.models[f"{EC}:ExprChecker"] = lambda it2, a, k: SObj(ClassVal("ExprCheckerStub", builtin=True), {"check": Builtin("check", lambda el, ty, *x: check(None, el, ty))})
+            aty = SObj(ClassVal("ArrayTy", builtin=True), {"args": [SObj(TA, {"ty": elem}), SObj(CA, {"const": "LEN"})]})
+            self_ = SObj(NAC, {"ctx": None, "node": "NODE", "func": SObj(ClassVal("F", builtin=True), {"id": "ID"})})
+            args = [f"el{i}" for i in range(n)]
+            try:
+                it.call_method(self_, "check", [args, aty])
+            except PyRaise:
+                pass                      # what happens after the element loop (length check, call node) is not this obligation
+            return checks, args
+        paths = e.explore(t3)
+
+        def post3(p, n=n):
+            if p.kind != "return":
+                return z3.BoolVal(False)
+            checks, args = p.value
+            want, _ = expected_checks(n, ["elem"] * n, {})
+            return z3.BoolVal(checks == want)
+        chk.prove_paths(f"{tag}NewArrayChecker.check[{n}]:element-i-checked-against-elem_ty.substitute(solutions-of-elements<i)", paths, post3, func=f"{CKM}:NewArrayChecker.check",
+                        replay=lambda m_: {"script": REPLAY_CALL, "input": {"sig": "x: array[T, 2]", "arg": "array(True, 3)", "imports": "from guppylang.std.builtins import array"}})
+    for k in (f"{EC}:ExprChecker.check", f"{EC}:ExprChecker", f"{TY}:unify"):
+        e.models.pop(k, None)
+
+
+
+def instantiation_checked(chk, e=None, tag=""):
+    """synthesize_call / check_call (checker/expr_checker.py): whichever way the instantiation of a
+    generic callee is inferred — from the arguments alone, or with the help of the expected result
+    type — it is validated by check_inst (the copyable / droppable bounds of the parameters) before
+    the call is accepted, and a violation propagates as the call's rejection.  Shared with C15: a
+    variant that fits only by violating a bound is not applicable."""
+    EC = "guppylang_internals.checker.expr_checker"
+    own = e is None
+    if own:
+        e = mk_engine(chk)
+    for q in ("synthesize_call", "check_call"):
+        e.func_info(EC, q)
+    m = e.module(EC)
+    bad = z3.Bool("instantiation_violates_a_bound")
+    for fn, synth_ok in (("synthesize_call", None), ("check_call", True), ("check_call", False)):
+        def t(it, fn=fn, synth_ok=synth_ok):
+            GTE = it.lookup_global(e.module("guppylang_internals.error"), "GuppyTypeError")
+            GTIE = it.lookup_global(e.module("guppylang_internals.error"), "GuppyTypeInferenceError")
+            log = []
+            out_ty = SObj(ClassVal("Ty", builtin=True), {"unsolved_vars": set(), "substitute": Builtin("substitute", lambda sub: "OUT-SUBST")})
+            unq = SObj(ClassVal("FunctionType", builtin=True), {"output": out_ty, "inputs": []})
+            fty = SObj(ClassVal("FunctionType", builtin=True), {"unsolved_vars": set(), "inputs": [], "output": out_ty, "unquantified": Builtin("unquantified", lambda: (unq, ["FREE"]))})
+            e.models[f"{EC}:check_num_args"] = lambda it2, a, k: None
+            sol = SObj(ClassVal("Ty", builtin=True), {"unsolved_vars": set()})
+            e.models[f"{EC}:type_check_args"] = lambda it2, a, k: (list(a[0]), {"v": sol})
+            e.models[f"{EC}:check_all_solved"] = lambda it2, a, k: "INST"
+            e.models[f"{TY}:unify"] = lambda it2, a, k: {}
+
+            def check_inst(it2, a, k):
+                log.append(("check_inst", a[0], a[1], a[2]))
+                if it.ctx.branch(bad):
+                    raise PyRaise(it.call(GTE, [SObj(ClassVal("Diag", builtin=True), {"kind": "bound"})], {}))
+            e.models[f"{EC}:check_inst"] = check_inst
+            if fn == "check_call":
+                def synth(it2, a, k):
+                    raise PyRaise(it.call(GTIE, [SObj(ClassVal("Diag", builtin=True), {"kind": "cannot-infer"})], {}))
+                if synth_ok:
+                    e.models.pop(f"{EC}:synthesize_call", None)       # the real one (it validates the instantiation itself)
+                else:
+                    e.models[f"{EC}:synthesize_call"] = synth
+                exp = SObj(ClassVal("Ty", builtin=True), {"unsolved_vars": set()})
+                r = it.call(it.lookup_global(m, "check_call"), [fty, ["ARG"], exp, "NODE", None], {})
+            else:
+                e.models.pop(f"{EC}:synthesize_call", None)
+                r = it.call(it.lookup_global(m, "synthesize_call"), [fty, ["ARG"], "NODE", None], {})
+            return r, log, fty
+        paths = e.explore(t)
+
+        def post(p):
+            if p.kind == "raise":
+                return z3.And(bad, z3.BoolVal(p.raised(e, "GuppyTypeError")))
+            if p.kind != "return":
+                return z3.BoolVal(False)
+            r, log, fty = p.value
+            ok = len(log) == 1 and log[0][1] is fty and log[0][2] == "INST" and log[0][3] == "NODE" and r[-1] == "INST"
+            return z3.And(z3.Not(bad), z3.BoolVal(ok))
+        label = fn + ("" if synth_ok is None else "[synthesis-succeeds]" if synth_ok else "[falls-back-to-the-expected-type]")
+        chk.prove_paths(f"{tag}{label}:the-inferred-instantiation-is-validated-by-check_inst-exactly-once/\\a-bound-violation-rejects-the-call", paths, post, func=f"{EC}:{fn}",
+                        replay=lambda m_: {"script": REPLAY_BOUND, "input": {}})
+    for k in (f"{EC}:check_num_args", f"{EC}:type_check_args", f"{EC}:check_all_solved", f"{TY}:unify", f"{EC}:check_inst", f"{EC}:synthesize_call"):
+        e.models.pop(k, None)
+    if own:
+        chk.use_engine(e)
+
+
+REPLAY_BOUND = r'''
+from guppylang_internals.error import GuppyError
+import tempfile, importlib.util, os, sys, shutil
+src = """from guppylang import guppy
+from guppylang.std.option import Option
+from guppylang.std.quantum import qubit
+T = guppy.type_var("T")          # copyable and droppable
+@guppy.declare
+def empty_any() -> Option[T]: ...
+@guppy
+def main() -> None:
+    o: Option[qubit] = empty_any()
+    o.unwrap_nothing()
+"""
+d = tempfile.mkdtemp(dir=os.environ.get("TMPDIR", "/var/tmp")); fn = os.path.join(d, "replay_c12b.py"); open(fn, "w").write(src)
+spec = importlib.util.spec_from_file_location("replay_c12b", fn); m = importlib.util.module_from_spec(spec); sys.modules["replay_c12b"] = m
+try:
+    spec.loader.exec_module(m)
+    try:
+        m.main.check(); accepted = True
+    except GuppyError:
+        accepted = False
+    out = {"violates": accepted, "accepted": accepted, "required": "rejected: T must be copyable and droppable, qubit is neither"}
+except Exception as ex:
+    out = {"violates": False, "error": repr(ex)[:300]}
+shutil.rmtree(d, ignore_errors=True)
+print(json.dumps(out))
+'''
+
+
+def _zb(v):
+    return v.t if hasattr(v, "t") else z3.BoolVal(bool(v))
+
+
 def u4(chk):
     """U4 — how the checker drives inference: the solutions found for earlier arguments / tuple
     components / list elements constrain the later ones.  ExprChecker.visit_Tuple, visit_List and
@@ -196,7 +355,60 @@ def u4(chk):
         chk.prove_paths(f"type_check_args[{n}]:argument-i-checked-against-input_i.substitute(incoming+solutions-of-arguments<i)/\\returns-the-union", e.explore(t2), post2,
                         func=f"{EC}:type_check_args", replay=lambda m_: {"script": REPLAY_CALL, "input": {"sig": "x: T, y: T", "arg": "True, 3"}})
     e.models.pop(f"{EC}:ExprChecker.check", None)
+
+    array_literal_threading(chk, e, mk_ty, expected_checks)
+
+    instantiation_checked(chk, e)
+
+    # ---- a parameter's inference variable carries the parameter's bounds (TypeParam.to_existential);
+    # unify's ownership rule and check_inst read them from the variable
+    PM = "guppylang_internals.tys.param"
+    e.func_info(PM, "TypeParam.to_existential")
+    cop, dro = z3.Bools("must_be_copyable must_be_droppable")
+
+    def t4(it):
+        from pyvc import SBool
+        TP = it.lookup_global(e.module(PM), "TypeParam")
+        p_ = SObj(TP, {"idx": 0, "name": "T", "must_be_copyable": SBool(cop), "must_be_droppable": SBool(dro)})
+        arg, var = it.call_method(p_, "to_existential", [])
+        return arg, var
+    chk.prove_paths("TypeParam.to_existential:the-variable-has-the-parameter's-name-and-copyable/droppable-bounds", e.explore(t4),
+                    lambda p: z3.BoolVal(False) if p.kind != "return" else z3.And(z3.BoolVal(p.value[0].fields["ty"] is p.value[1] and p.value[1].fields["display_name"] == "T"),
+                                                                                   _zb(p.value[1].fields["copyable"]) == cop, _zb(p.value[1].fields["droppable"]) == dro),
+                    func=f"{PM}:TypeParam.to_existential", replay=lambda m_: {"script": REPLAY_OWNED, "input": {}})
     chk.use_engine(e)
+
+
+REPLAY_OWNED = r'''
+from guppylang_internals.error import GuppyError
+import tempfile, importlib.util, os, sys, shutil
+src = """from guppylang import guppy
+from guppylang.std.builtins import owned
+from guppylang.std.quantum import qubit
+from collections.abc import Callable
+T = guppy.type_var("T", copyable=False, droppable=False)
+@guppy.declare
+def app(f: Callable[[T @owned], None], x: T @owned) -> None: ...
+@guppy.declare
+def borrow(q: qubit) -> None: ...
+@guppy
+def main(q: qubit @owned) -> None:
+    app(borrow, q)
+"""
+d = tempfile.mkdtemp(dir=os.environ.get("TMPDIR", "/var/tmp")); fn = os.path.join(d, "replay_c12o.py"); open(fn, "w").write(src)
+spec = importlib.util.spec_from_file_location("replay_c12o", fn); m = importlib.util.module_from_spec(spec); sys.modules["replay_c12o"] = m
+try:
+    spec.loader.exec_module(m)
+    try:
+        m.main.check(); accepted = True
+    except GuppyError:
+        accepted = False
+    out = {"violates": accepted, "accepted": accepted, "required": "rejected: a borrowing function does not fit a parameter that takes its argument @owned"}
+except Exception as ex:
+    out = {"violates": False, "error": repr(ex)[:300]}
+shutil.rmtree(d, ignore_errors=True)
+print(json.dumps(out))
+'''
 
 
 REPLAY_CALL = r'''
@@ -204,6 +416,7 @@ from guppylang_internals.error import GuppyError
 import tempfile, importlib.util, os, sys, shutil
 I = INPUT
 src = f"""from guppylang import guppy
+{I.get('imports', '')}
 T = guppy.type_var("T")
 @guppy.declare
 def gen({I['sig']}) -> None: ...
